@@ -38,6 +38,22 @@ def classTableOf (which : String) (m : Mappings) (src dst : Nat) : Option ATable
 def firstHit (sel : BClass → AList MemberKey MemberKey) (r : BTable) (key : MemberKey) (order : List JStr) : Option MemberKey :=
   order.findSome? (declares sel r key)
 
+/-- `member_resolution` / `member_resolution_nearest`: the answer is the first declaration along the pre-order of the
+provider's graph from the owner; out of domain only when the provider is cyclic (no pre-order) -/
+def memberResolution (m kind src dst sup owner n d : Sexp) : Option Ans := do
+  let m ← mappingsFrom m; let kind ← toTag? kind; let sel ← selOf kind
+  let src ← toNat? src; let dst ← toNat? dst; let sup ← supersFrom sup
+  let owner ← toJStr? owner; let n ← toJStr? n; let d ← toJStr? d
+  pure (match remapperB m src dst with
+    | none => ood
+    | some r =>
+      match dfs sup (defaultFuel sup) owner with
+      | none => ood
+      | some order =>
+        match mapMemberFail sel r sup (defaultFuel sup) owner (n, d) with
+        | none => fail "fuel"
+        | some res => if res == firstHit sel r (n, d) order then pass else fail "differs")
+
 def handle (op : String) (args : List Sexp) : Option Ans :=
   match op, args with
   | "map-class", [m, which, src, dst, c] => do
@@ -59,7 +75,7 @@ def handle (op : String) (args : List Sexp) : Option Ans :=
     pure (match remapperB m src dst with
       | none => .err "e"
       | some r =>
-        let fuel := defaultFuel r
+        let fuel := defaultFuel sup
         match mapMemberFail sel r sup fuel owner (n, d), mapMember sel r sup fuel owner (n, d),
               mapRefObj sel r sup fuel owner (n, d) with
         | some f, some g, some h => .ok (list [ofOption keyTo f, ofOption keyTo g, ofOption refTo h])
@@ -71,7 +87,7 @@ def handle (op : String) (args : List Sexp) : Option Ans :=
     pure (match remapperB m src dst with
       | none => .err "e"
       | some r =>
-        match mapMethodRef r sup (defaultFuel r) cls (n, d) with
+        match mapMethodRef r sup (defaultFuel sup) cls (n, d) with
         | some (some h) => .ok (refTo h)
         | some none => .err "e"
         | none => .skip "fuel")
@@ -96,48 +112,11 @@ def handle (op : String) (args : List Sexp) : Option Ans :=
       | none => ood
       | some t =>
         if (mapDescWith t d).isNone == !MapDesc.accepts d then pass else fail "differs")
-  | "oracle-member-resolution", [m, kind, src, dst, sup, owner, n, d] => do
-    let m ← mappingsFrom m; let kind ← toTag? kind; let sel ← selOf kind
-    let src ← toNat? src; let dst ← toNat? dst; let sup ← supersFrom sup
-    let owner ← toJStr? owner; let n ← toJStr? n; let d ← toJStr? d
-    pure (match remapperB m src dst with
-      | none => ood
-      | some r =>
-        match dfs r sup (defaultFuel r) owner with
-        | none => ood
-        | some order =>
-          match mapMemberFail sel r sup (defaultFuel r) owner (n, d) with
-          | none => fail "fuel"
-          | some res => if res == firstHit sel r (n, d) order then pass else fail "differs")
-  | "oracle-member-nearest", [m, kind, src, dst, sup, owner, n, d] => do
-    let m ← mappingsFrom m; let kind ← toTag? kind; let sel ← selOf kind
-    let src ← toNat? src; let dst ← toNat? dst; let sup ← supersFrom sup
-    let owner ← toJStr? owner; let n ← toJStr? n; let d ← toJStr? d
-    pure (match remapperB m src dst with
-      | none => ood
-      | some r =>
-        match dfsAll sup (allFuel sup) owner with
-        | none => ood
-        | some order =>
-          if !allMapped r order then ood
-          else
-            match mapMemberFail sel r sup (max (allFuel sup) (defaultFuel r)) owner (n, d) with
-            | none => fail "fuel"
-            | some res => if res == firstHit sel r (n, d) order then pass else fail "differs")
-  -- the full-strength statement (no `allMapped` domain); never generated, only replayed for the known finding
-  | "oracle-member-nearest-full", [m, kind, src, dst, sup, owner, n, d] => do
-    let m ← mappingsFrom m; let kind ← toTag? kind; let sel ← selOf kind
-    let src ← toNat? src; let dst ← toNat? dst; let sup ← supersFrom sup
-    let owner ← toJStr? owner; let n ← toJStr? n; let d ← toJStr? d
-    pure (match remapperB m src dst with
-      | none => ood
-      | some r =>
-        match dfsAll sup (allFuel sup) owner with
-        | none => ood
-        | some order =>
-          match mapMemberFail sel r sup (max (allFuel sup) (defaultFuel r)) owner (n, d) with
-          | none => fail "fuel"
-          | some res => if res == firstHit sel r (n, d) order then pass else fail "differs")
+  | "oracle-member-resolution", [m, kind, src, dst, sup, owner, n, d] => memberResolution m kind src dst sup owner n d
+  -- since c873813 the statement of the property text holds without a domain; `-full` is kept as an alias so that the
+  -- request line recorded for the (fixed) finding C06-unmapped-owner-hides-supers still replays
+  | "oracle-member-nearest", [m, kind, src, dst, sup, owner, n, d] => memberResolution m kind src dst sup owner n d
+  | "oracle-member-nearest-full", [m, kind, src, dst, sup, owner, n, d] => memberResolution m kind src dst sup owner n d
   | "oracle-fallback", [m, kind, src, dst, sup, owner, n, d] => do
     let m ← mappingsFrom m; let kind ← toTag? kind; let sel ← selOf kind
     let src ← toNat? src; let dst ← toNat? dst; let sup ← supersFrom sup
@@ -145,7 +124,7 @@ def handle (op : String) (args : List Sexp) : Option Ans :=
     pure (match remapperB m src dst with
       | none => ood
       | some r =>
-        match mapMemberFail sel r sup (defaultFuel r) owner (n, d), mapMember sel r sup (defaultFuel r) owner (n, d) with
+        match mapMemberFail sel r sup (defaultFuel sup) owner (n, d), mapMember sel r sup (defaultFuel sup) owner (n, d) with
         | some f, some g =>
           let spec := match f with
             | some v => some v
